@@ -34,7 +34,9 @@ sensitivity|seeded|baseline)
     if [ "$MODE" != sensitivity ]; then for f in "$ROOT"/seeded/*/patch.diff; do [ -f "$f" ] && LIST+=("$f"); done; fi
     MISSED=0; TOTAL=0
     for f in "${LIST[@]}"; do
-        case "$f" in */seeded/*) name="$(basename "$(dirname "$f")")"; id="$(python3 -c "import json,sys; print(json.load(open(sys.argv[1]))['property'])" "$(dirname "$f")/meta.json")" ;;
+        extra="--tier quick"   # a seeded change may name the tier that is able to see it (meta.json: "check_args")
+        case "$f" in */seeded/*) name="$(basename "$(dirname "$f")")"; id="$(python3 -c "import json,sys; print(json.load(open(sys.argv[1]))['property'])" "$(dirname "$f")/meta.json")"
+                                 extra="$(python3 -c "import json,sys; print(json.load(open(sys.argv[1])).get('check_args','--tier quick'))" "$(dirname "$f")/meta.json")" ;;
                      *) name="$(basename "$f" .patch)"; id="${name%%-*}" ;; esac
         if [ $# -gt 0 ]; then hit=0; for want in "$@"; do case "$name" in *"$want"*) hit=1;; esac; done; [ $hit = 1 ] || continue; fi
         TOTAL=$((TOTAL+1))
@@ -46,7 +48,7 @@ sensitivity|seeded|baseline)
             rm -rf "$SCR" "$SCR.log"; continue
         fi
         ALT="$ROOT/build/alt-mut.$$"; rm -rf "$ALT"; rsync -a "$ROOT/build/main/" "$ALT/"
-        out="$(UFW_SRC="$SCR" VERIF_BUILD="$ALT" "$ROOT/check" "$id" --tier quick --no-evidence --stop-early --shrink-budget 150 --replay-dir "$ALT/replays" 2>&1)"; rc=$?
+        out="$(UFW_SRC="$SCR" VERIF_BUILD="$ALT" "$ROOT/check" "$id" $extra --no-evidence --stop-early --shrink-budget 150 --replay-dir "$ALT/replays" 2>&1)"; rc=$?
         tags="$(echo "$out" | grep -oE 'tag=C[0-9]+:[^ ]+' | sort -u | tr '\n' ' ')"
         if [ $rc -eq 1 ]; then echo "caught  $id $name  [$tags]"; else echo "MISSED  $id $name (exit $rc)"; echo "$out" | tail -3; MISSED=$((MISSED+1)); fi
         rm -rf "$SCR" "$ALT" "$ALT.make.log"
